@@ -2,6 +2,7 @@ package main
 
 import (
 	"fmt"
+	"github.com/ovn-org/libovsdb/ovsdb"
 	"strings"
 
 	"verifharness/dyn"
@@ -23,18 +24,18 @@ func c03Schema() dyn.Schema {
 
 // runTxnHistories is the common driver body for the engine properties.
 type txnProfile struct {
-	prop      string
-	schemas   func(g *gen.G, i int) dyn.Schema
-	tune      func(tg *txnGen)
-	ncases    int
-	ntxn      int
-	maxOps    int
-	shard     int
-	oracle    func(lab *txnLab, before map[string]map[string]map[string]val.Val, beforeRefs []oRef, ops []TOp, ob tObs) string
-	nontriv   func(ops []TOp, ob tObs) bool
-	classify  func(ops []TOp, ob tObs) string
-	seed      func(tg *txnGen) []TOp // optional first transaction populating the database
-	extra     func(o opts, g *gen.G, syms *val.Syms, w *emit.Writer) error // further cases of the same case type
+	prop     string
+	schemas  func(g *gen.G, i int) dyn.Schema
+	tune     func(tg *txnGen)
+	ncases   int
+	ntxn     int
+	maxOps   int
+	shard    int
+	oracle   func(lab *txnLab, before map[string]map[string]map[string]val.Val, beforeRefs []oRef, ops []TOp, ob tObs) string
+	nontriv  func(ops []TOp, ob tObs) bool
+	classify func(ops []TOp, ob tObs) string
+	seed     func(tg *txnGen) []TOp                                       // optional first transaction populating the database
+	extra    func(o opts, g *gen.G, syms *val.Syms, w *emit.Writer) error // further cases of the same case type
 }
 
 func runTxnHistories(o opts, p txnProfile) error {
@@ -192,6 +193,7 @@ func driveC03(o opts) error {
 	if o.tier == "thorough" {
 		p.ncases, p.ntxn, p.maxOps = 4000, 10, 6
 	}
+	p.extra = c03Regressions
 	if err := runTxnHistories(o, p); err != nil {
 		return err
 	}
@@ -238,4 +240,91 @@ func c03Witnesses(o opts) error {
 		}
 	}
 	return emit.PatchStats(o.out, "C03", func(extra map[string]interface{}) { extra["oracle_known"] = known })
+}
+
+// c03Regressions replays hand-written transactions whose outcome RFC 7047 fixes and that the generators cannot
+// produce (members the harness' typed rows cannot express, extreme numbers): each is a repaired defect.
+func c03Regressions(o opts, g *gen.G, syms *val.Syms, w *emit.Writer) error {
+	lab, err := newTxnLab(c03Schema())
+	if err != nil {
+		return err
+	}
+	u := gen.UUIDn(11)
+	if ob := lab.run([]TOp{{Kind: "insert", Table: "T", UUID: u, Row: map[string]val.Val{"name": val.VA(val.Str("reg")), "n": val.VA(val.Int(5))}}}); !ob.Committed {
+		return fmt.Errorf("c03 regressions: populate failed")
+	}
+	raw := func(ops ...ovsdb.Operation) ([]*ovsdb.OperationResult, bool) {
+		tr := lab.imdb.NewTransaction(lab.name)
+		res, upd := tr.Transact(ops...)
+		ok := true
+		for _, r := range res {
+			if r != nil && r.Error != "" {
+				ok = false
+			}
+		}
+		if ok {
+			ok = lab.imdb.Commit(lab.name, [16]byte{7}, upd) == nil
+		}
+		return res, ok
+	}
+	report := func(name, failure string) {
+		w.Count("regression:" + name)
+		w.Add(emit.Case{Term: "Txn.mkCreate [] []", JSON: map[string]interface{}{"regression": name}, Key: "regression:" + name, Nontrivial: true, Class: "regression", Oracle: failure})
+	}
+	// the _uuid of a row cannot be updated
+	{
+		failure := ""
+		_, ok := raw(ovsdb.Operation{Op: "update", Table: "T", Where: []ovsdb.Condition{}, Row: ovsdb.Row{"_uuid": ovsdb.UUID{GoUUID: gen.UUIDn(12)}}})
+		st, _, _ := lab.state()
+		if ok {
+			failure = "update T set {_uuid: other} is committed"
+		}
+		if _, still := st["T"][u]; !still {
+			failure = "after update T set {_uuid: other} the row is no longer stored under its uuid"
+		}
+		report("update of _uuid", failure)
+	}
+	// a wait naming _uuid compares the row's uuid
+	{
+		failure := ""
+		zero := 0
+		w8 := func(until string) ovsdb.Operation {
+			return ovsdb.Operation{Op: "wait", Table: "T", Timeout: &zero, Where: []ovsdb.Condition{}, Columns: []string{"_uuid"}, Until: until,
+				Rows: []ovsdb.Row{{"_uuid": ovsdb.UUID{GoUUID: u}}}}
+		}
+		if res, ok := raw(w8("==")); !ok {
+			failure = fmt.Sprintf("wait until == on the _uuid of the only row times out: %+v", res)
+		}
+		if _, ok := raw(w8("!=")); ok && failure == "" {
+			failure = "wait until != on the _uuid of the only row succeeds"
+		}
+		report("wait on _uuid", failure)
+	}
+	// arithmetic whose result is not representable is a range error and leaves the row alone
+	for _, rc := range []struct {
+		name, col string
+		start     val.Val
+		mutator   string
+		arg       interface{}
+	}{
+		{"integer overflow", "n", val.VA(val.Int(1 << 62)), "*=", 2},
+		{"integer overflow by addition", "n", val.VA(val.Int(1 << 62)), "+=", 1 << 62},
+		{"real overflow", "r", val.VA(val.Real(1e308)), "*=", 10.5},
+	} {
+		failure := ""
+		lab.run([]TOp{{Kind: "update", Table: "T", Where: []Cond{}, Row: map[string]val.Val{rc.col: rc.start}}})
+		before, _, _ := lab.state()
+		res, ok := raw(ovsdb.Operation{Op: "mutate", Table: "T", Where: []ovsdb.Condition{}, Mutations: []ovsdb.Mutation{{Column: rc.col, Mutator: ovsdb.Mutator(rc.mutator), Value: rc.arg}}})
+		after, _, _ := lab.state()
+		switch {
+		case ok:
+			failure = fmt.Sprintf("mutate %s %s %v on %s is committed (the row now holds %s)", rc.col, rc.mutator, rc.arg, rc.start.Key(), after["T"][u][rc.col].Key())
+		case len(res) == 0 || res[0] == nil || !strings.Contains(res[0].Error, "range error"):
+			failure = fmt.Sprintf("mutate %s %s %v on %s: expected a range error, got %+v", rc.col, rc.mutator, rc.arg, rc.start.Key(), res)
+		case !rowsEqual(before["T"][u], after["T"][u]):
+			failure = "a rejected arithmetic mutation changed the row"
+		}
+		report(rc.name, failure)
+	}
+	return nil
 }
